@@ -715,9 +715,11 @@ class LayoutEval:
 
     def ctor(self, n, args, kwargs, node):
         if n == "Struct":
-            if kwargs:
-                raise AnalysisError("Struct(**kwargs) not modelled")
-            return Con("struct", fields=[self.as_con(a, node) for a in args], node=node)
+            # Struct(*subcons, **subconskw): keyword members follow the positional ones, each named by its keyword (in call order)
+            fields = [self.as_con(a, node) for a in args]
+            for k_, v_ in kwargs.items():
+                fields.append(Con("renamed", name=k_, sub=self.as_con(v_, node), node=node, mod=None))
+            return Con("struct", fields=fields, node=node)
         if n == "Bytes":
             return Con("bytes", size=self.lazy_num(args[0]))
         if n == "Padding":
